@@ -11,65 +11,64 @@ CLAIMS = {
   TRUST + "The sem_* oracle axioms are transcribed from the README. The link from scan type to the keys a plan actually reads is the subject of C18/C01, not of this check.",
   "DESIGN.md section 5, C02"),
  "C01": ("proof",
-  "Row mode: the evaluator (BinaryOpExpr.Execute and its helpers, NotExpr, literals, key/value) is proved to compute the documented meaning of = != ^= & | > >= < <= + - * / ! from the values of the operands, with exact definedness conditions; Filter is proved to return `evaluates to true`; the four scan plans are proved to return exactly the next filtered pair in cursor order, to skip only pairs that fail the filter, and to report the end only when the region is exhausted. 40 functions; obligations from the go/ssa form of the working tree, discharged by z3 / cvc5.",
-  TRUST + "Regular expressions, IN, BETWEEN, scalar functions and the batch-mode twins are not covered (thin assumed contracts, listed). Evaluation is a function of expression and pair (A-EVAL); cursor behaviour is A-STORE. Composition over calls is argued on paper.",
+  "The evaluator (BinaryOpExpr.Execute and its helpers incl. regexp match, IN over literal lists, BETWEEN; NotExpr, literals, key/value, utils.go coercions) is proved to compute the documented meaning of = != ^= ~= & | > >= < <= + - * / ! in between from the values of the operands, with exact definedness conditions; Filter is proved to return `evaluates to true`; the four scan plans are proved, in row mode and in batch mode, to return exactly the filter-passing pairs of the cursor segment they consume, in cursor order, with their stored values, to skip only pairs that fail the filter, and to report the end only when the region is exhausted; NewMultiGetPlan sorts and de-duplicates the listed keys. 43 functions; obligations from the go/ssa form of the working tree, discharged by z3 / cvc5.",
+  TRUST + "Scalar functions and field access are C10; element values of function-valued IN lists, float BETWEEN bounds (kinds only) and the value of text concatenation are not modelled. MultiGetPlan.Batch is proved sound (only stored, listed, passing pairs; every listed key read before a short batch) but not complete for absent keys. Evaluation is a function of expression and pair (A-EVAL); cursor behaviour is A-STORE; regexp is T-STD. Composition over calls is argued on paper.",
   "DESIGN.md section 5, C01"),
  "C05": ("proof",
-  "Row mode: an alias reference is proved to evaluate exactly as its defining expression for every pair, cache content and cache switch; the per-row cache is proved invisible through a coherence invariant (every entry is the value of its alias on the current pair) that Expression.Execute requires and preserves, that the four row-mode scans establish for every pair before filtering it (this failed on the pinned tree: defect D5, repaired) and hand over with the returned pair, and that ProjectionPlan uses to return one column per field, in order, each the field's value on that pair.",
-  TRUST + "Batch mode (chunk caches) and aliases in ORDER BY / GROUP BY are not covered. That every reference points at the select field of its name (A-ALIAS) and that evaluation is a function of expression and pair (A-EVAL) are assumptions.",
+  "An alias reference is proved to evaluate exactly as its defining expression for every pair, cache content and cache switch; the per-row cache is proved invisible through a coherence invariant (every entry is the value of its alias on the current pair) that Expression.Execute requires and preserves through the whole row evaluator, that the row-mode scans establish for every pair before filtering it (failed on the pinned tree: defect D5, repaired) and that projection, LimitPlan.Next, the accumulators and AggregatePlan.prepare / prepareBatch / getAggrKey rely on. Batch mode: the per-chunk cache (key format name-firstkey, FieldReferenceExpr.ExecuteBatch, Get/Set/AppendChunkFieldResult, AdjustChunkCache, Clear) is proved coherent and apart from result arrays through all vector evaluators, established per filter round in the three cursor scans, with a typestate (no per-chunk key entries between scan batches). 90 functions.",
+  TRUST + "Alias names contain no dash (axiom on the key format); final-result columns rest on the interface clauses finalcols / colsok; MultiGetPlan.Batch and the registered vector function bodies are covered by interface / function-type clauses only; aliases in ORDER BY are not covered. That every reference points at the select field of its name (A-ALIAS) and that evaluation is a function of expression and pair (A-EVAL) are assumptions. The thorough tier adds bounded alias-vs-expansion stand-ins.",
   "DESIGN.md section 5, C05"),
  "C08": ("proof",
   "LimitPlan and FinalLimitPlan (Init, Next, Batch) are proved, for every offset, count, result size, symbolic batch size and every split of the child's output into batches, to return exactly the next rows Start+current.. of the child's ghost output sequence, to stop at Count or at the child's end, and to maintain the object invariant that makes the per-call statement compose over calls.",
-  TRUST + "The child is represented by the Plan/FinalPlan interface contract (ghost sequence, any batch split). Composition over calls is an induction argued on paper with the machine-checked object invariant as hypothesis. The limit half of AggregatePlan.Next/Batch is proved over assumed thin contracts of next()/batch(); parseLimit and buildFinalPlan wiring are not yet under contract.",
+  TRUST + "The child is represented by the Plan/FinalPlan interface contract (ghost sequence, any batch split). Composition over calls is an induction argued on paper with the machine-checked object invariant as hypothesis. The plan wiring (buildFinalPlan, buildFinalLimitPlan, the LimitPlan of buildDeletePlan, the limit half of AggregatePlan.Next/Batch) is under contract; parseLimit is not (the numbers of the LimitStmt are taken as given).",
   "DESIGN.md section 5, C08"),
  "C10": ("proof",
-  "Row forms of the scalar functions are under contract against their one-line descriptions: value coercions (decimal rendering and reading), str / int / float / is_int / is_float / strlen, substr (clamped byte range), len and [n] over every list representation, int_list / float_list keeping argument order, distances refusing unequal lengths. 19 functions; three defects found by failed obligations and repaired (substr panic, len and indexing refusing list kinds).",
-  TRUST + "upper / lower, split / join, json parsing and the numeric values of the distances rest on standard-library behaviour or uninterpreted floats and are not covered; the vector forms belong to C03.",
+  "The scalar functions are under contract against their one-line descriptions, row and vector forms: value coercions (decimal rendering and reading), str / int / float / is_int / is_float / strlen, substr (clamped byte range), len and [n] over every list representation, int_list / float_list / list keeping argument order, split (provenance of strings.Split) and join (strings.Join of the renderings), distances refusing unequal lengths. 32 functions; defects found by failed obligations and repaired (substr panic, len and indexing refusing list kinds, list() vector form).",
+  TRUST + "upper / lower (case mapping), the elements of split's result, json parsing and the numeric values of the distances rest on standard-library behaviour or uninterpreted floats and are not covered.",
   "DESIGN.md section 5, C10"),
  "C11": ("proof",
-  "DeletePlan (execute, Init, Next, Batch) is proved to drain its child's ghost output sequence, to hand exactly the keys of each batch - and nothing else - to BatchDelete, to delete as many keys as rows were drained, to issue no Put/BatchPut/Delete, and to execute once.",
-  TRUST + "Storage behaviour (A-STORE) and the child's interface contract are assumptions; that the child sequence equals what the corresponding SELECT returns is composition with C01/C02/C08 (paper step). buildDeletePlan and the REMOVE shortcut are not yet under contract.",
+  "DeletePlan (execute, Init, Next, Batch) is proved to drain its child's ghost output sequence, to hand exactly the keys of each batch - and nothing else - to BatchDelete, to delete as many keys as rows were drained, to issue no Put/BatchPut/Delete, and to execute once; buildDeletePlan / buildScanPlan wire scan, optional LimitPlan and DeletePlan, and the DELETE -> REMOVE shortcut is proved to be taken only for a multi-get scan without LIMIT whose filter contains no AND (Walk client under contract), removing exactly the listed keys. 21 functions.",
+  TRUST + "Storage behaviour (A-STORE) and the child's interface contract are assumptions; that the child sequence equals what the corresponding SELECT returns is composition with C01/C02/C08 (paper step).",
   "DESIGN.md section 5, C11"),
  "C12": ("proof",
   "PutPlan and RemovePlan are proved: pairs/keys are the evaluated expressions (a value sees its own evaluated key), nothing is written before every expression has evaluated, exactly one storage call with the pairs in order is issued on success, none on failure, and polling a finished plan issues nothing.",
   TRUST + "Expression.Execute is assumed to be a function of expression and pair (interface contract); Put/BatchPut/Delete/BatchDelete semantics are A-STORE. Parser/validators for PUT and REMOVE are not yet under contract.",
   "DESIGN.md section 5, C12"),
-
  "C14": ("proof",
-  "checker.go is under contract: each operator's operand rule is a postcondition of its checkWith* function (stated over the static result types of the operands), and a ghost mark proves that a successful Check of any node implies a successful Check of every operand, list item, argument and field-access operand below it, with the in-place alias rewriting modelled exactly (element-level frames); Check returns only SyntaxError values. 29 functions, obligations generated from the working tree's go/ssa form on every run and discharged by z3 / cvc5.",
+  "checker.go is under contract: each operator's operand rule is a postcondition of its checkWith* function (stated over the static result types of the operands), and a ghost mark proves that a successful Check of any node implies a successful Check of every operand, list item, argument and field-access operand below it, with the in-place alias rewriting modelled exactly (element-level frames) and guarded against circular references (a name is resolved only when its field's definition does not contain the referencing expression: defect D10, repaired); Check returns only SyntaxError values. 21 functions, obligations generated from the working tree's go/ssa form on every run and discharged by z3 / cvc5.",
   TRUST + "Known finding D13 (unknown function / wrong argument count accepted at build time; pinned by the existing tests, not repaired) is listed in known_findings.json. The converse direction (allowed statements are accepted and never raise operand-type errors) and the parser's per-statement keyword flags are not covered. Static result types are a specification function (A-RTYPE).",
   "DESIGN.md section 5, C14"),
  "C15": ("proof",
-  "The recursive-descent expression parser is under contract: Token.Precedence and BuildOp are proved equal to the documented operator table, and parseBinaryExpr and its eleven helpers are proved, for every token sequence, to build only binary nodes whose left operand binds at least as strongly and whose right operand binds strictly more strongly than the node's operator (ghost binding level, parentheses / calls / indexes / lists at the top level), to stop exactly in front of a weaker operator, and to parse BETWEEN bounds above the comparison level. Obligations are generated from the go/ssa form of the working tree on every run (defer, closures and the constant operator map included) and discharged by z3 / cvc5.",
-  TRUST + "Covers the binding-strength / associativity half of the property. The String()/re-parse round trip, case folding and in-order token consumption are not covered (see evidence). The ghost level is maintained by ghost statements in the contract file.",
+  "The recursive-descent expression parser is under contract: Token.Precedence and BuildOp are proved equal to the documented operator table, and parseBinaryExpr and its eleven helpers are proved, for every token sequence, to build only binary nodes whose left operand binds at least as strongly and whose right operand binds strictly more strongly than the node's operator (ghost binding level, parentheses / calls / indexes / lists at the top level), to stop exactly in front of a weaker operator, and to parse BETWEEN bounds above the comparison level. The twelve String methods of expression.go are proved to return the canonical fully parenthesised rendering (one defining axiom per node kind; fmt.Sprintf with %s-only formats and strings.Join modelled exactly). 26 functions; obligations generated from the go/ssa form of the working tree on every run and discharged by z3 / cvc5.",
+  TRUST + "Covers the binding-strength / associativity half of the property. The String()/re-parse round trip of whole trees is not proved (no contract expresses it without a grammar-level specification); the thorough tier adds a bounded stand-in for it (every operator chain of length <= 4 and 30 000 random trees printed three ways and in random letter case, labelled bounded in the evidence, never counted as proved). The ghost level is maintained by ghost statements in the contract file.",
   "DESIGN.md section 5, C15"),
  "C16": ("proof",
   "lexer.go is under contract: Lexer.Split is proved, for every query string, to emit only tokens whose offset and text are exactly (or, for words, the lower-case form of) the query bytes they stand for, quoted literals being the bytes between their two quote characters; buildToken's classification equals the documented keyword / number / float / name table. Scanner-state loop invariant, one obligation per append site, per-path invariant preservation; string theory with sub/at/cat/blen axioms; discharged by z3 / cvc5.",
-  TRUST + "strings.ToLower / TrimSpace / TrimLeftFunc and strconv parsing are modelled axiomatically (T-STD). Spacing-irrelevance (a two-run relation) and 'no earlier closing quote inside a literal' are not covered.",
+  TRUST + "strings.ToLower / TrimSpace / TrimLeftFunc and strconv parsing are modelled axiomatically (T-STD). Spacing-irrelevance is a relation between two runs and is not proved; the thorough tier adds a bounded stand-in for it (every sequence of at most four tokens from a pool of 20 with every choice of optional spacing, labelled bounded in the evidence). 'No earlier closing quote inside a literal' is not covered.",
   "DESIGN.md section 5, C16"),
  "C17": ("proof",
   "errors.go is under contract: outputQueryAndErrPos is proved, for every query text, offset and padding, to render a window of the trimmed query that contains the offset and to place the caret under the byte at that offset of the original query (string theory with sub/at/cat/blen axioms; loop invariants over the padding loops), without any out-of-range slice; Error() of a bound SyntaxError/ExecuteError starts with that rendering; the constructors carry the given position; every SyntaxError of the expression parser carries -1, 0 or a token start (bounded-existential witness).",
   TRUST + "strings.TrimSpace / TrimLeftFunc / fmt.Sprintf are modelled axiomatically (T-STD). Statement-level parser errors, checker and execution-time positions are not yet covered; token positions inside the query are the lexer's contract (C16).",
   "DESIGN.md section 5, C17"),
  "C18": ("proof",
-  "Planner tightness and scan confinement: each key-pinning atom yields exactly its documented scan type and literals, AND returns a region inside one operand's region, disjoint operands give EMPTY, Optimize() maps scan types to the matching plan kinds, and the row-mode scan plans are proved to read only keys of their region plus at most the key that ends it (MultiGetPlan: one Get per listed key; EmptyResultPlan: no storage call).",
-  TRUST + "Cursor behaviour (Seek to first key >= p, strictly ascending snapshot) is A-STORE. The per-construct statements compose to the property on paper. Batch forms of the scans are not yet under contract.",
+  "Planner tightness and scan confinement: each key-pinning atom yields exactly its documented scan type and literals, AND returns a region inside one operand's region, disjoint operands give EMPTY, Optimize() maps scan types to the matching plan kinds, and the scan plans are proved, in row mode and in batch mode, to read only keys of their region plus at most the key that ends it (MultiGetPlan: one Get per listed key; EmptyResultPlan: no storage call). 37 functions.",
+  TRUST + "Cursor behaviour (Seek to first key >= p, strictly ascending snapshot) is A-STORE. The per-construct statements compose to the property on paper.",
   "DESIGN.md section 5, C18"),
  "C13": ("proof",
-  "Storage-error typestate and read-only frames: every storage/cursor operation requires that no earlier one failed and records a failure in ghost state; the plan functions under contract are proved to return that error unchanged, to issue no further storage call after it (precondition obligations at every call site), and - for scans, filter and limit plans - to have no mutating call in their frame.",
-  TRUST + "Covers the put/remove/delete plans, limit plans, row-mode scans, filter and buildDeletePlan; ProjectionPlan, FinalOrderPlan, AggregatePlan, batch-mode scans and buildPlan are not yet under contract for this property.",
+  "Storage-error typestate and read-only frames: every storage/cursor operation requires that no earlier one failed and records a failure in ghost state; the plan functions under contract - put / remove / delete plans, limit plans, row-mode and batch-mode scans, filter, projection (Next / Batch), FinalOrderPlan, AggregatePlan.prepare / prepareBatch, and the plan builders buildPlan / BuildPlan / buildSelectPlan / buildFinalPlan / buildDeletePlan - are proved to return that error unchanged, to issue no further storage call after it (precondition obligations at every call site), and, for everything a SELECT is made of, to have no mutating call in their frame; a rejected statement touches nothing because the builders issue no storage call before Init. 54 functions.",
+  TRUST + "AggregatePlan.Next / Batch above prepare are covered through the thin contracts of next() / batch(). Storage behaviour is A-STORE.",
   "DESIGN.md section 5, C13"),
  "C06": ("proof",
-  "Panic-freedom of every function that any property puts under contract: one automatically generated obligation per run-time-panic site of the go/ssa form (nil dereference, index / slice bounds, unchecked type assertion, division by zero, nil-map write, negative make, explicit panic), discharged for all inputs from the function's contract; termination where a decreases clause is given.",
-  TRUST + "Not the whole-program statement: functions not yet under contract (parser, checker, lexer, scalar functions, order and aggregate plans, error rendering) are outside this check, as are stack depth and standard-library panics. Preconditions are established by callers only where the callers are under contract.",
+  "Panic-freedom of every function that any property puts under contract (about 290 of the package's 479 declared functions and methods: evaluator in both modes, scans, projection / order / aggregate / limit / write plans, planner, checker, expression parser, lexer, error rendering, scalar functions, String methods): one automatically generated obligation per run-time-panic site of the go/ssa form (nil dereference, index / slice bounds, unchecked type assertion, division by zero, nil-map write, negative make, explicit panic, modelled standard-library panics), discharged for all inputs from the function's contract, plus the untagged call-site preconditions those contracts rest on and the clauses tagged C06 (no circular alias reference is ever created: defect D10, repaired).",
+  TRUST + "Not the whole-program statement: the statement-level parser functions (parseSelect, parseLimit, parsePut, ...), the plans' Explain / String methods and trivial accessors, quantile, json helpers and some registered vector bodies are outside this check, as are stack depth in general, termination of loops without a decreases clause and standard-library panics that are not modelled. Preconditions are established by callers only where the callers are under contract.",
   "DESIGN.md section 5, C06"),
  "C19": ("other",
-  "Frame (ownership) theorem over the whole package, decided syntactically on the go/ssa form: outside init / AddScalarFunction / AddAggrFunction no instruction writes a package-level variable or memory reachable from one (taint fixpoint with interprocedural return / parameter-write summaries). Statements that own their plan, AST and context then share only memory nobody writes, which excludes data races under every schedule; no schedule is explored.",
+  "Frame (ownership) theorem over the whole package, decided syntactically on the go/ssa form: outside init / AddScalarFunction / AddAggrFunction no instruction writes a package-level variable or memory reachable from one (taint fixpoint with interprocedural return / parameter-write summaries); no function hands out shared objects of a type the exported API writes through; every in-place append to a []byte targets a buffer the function owns. Statements that own their plan, AST and context then share only memory nobody writes, which excludes data races under every schedule; no schedule is explored.",
   "Assumes a thread-safe Storage, no concurrent registration or change of the package switches, and per-statement instances of stdlib objects. Writes performed inside dynamically dispatched callees through a shared ARGUMENT are not followed (writes to globals inside any analysed function are). A lock-protected global would be reported although harmless (stated limit).",
   "DESIGN.md section 5, C19"),
  "C03": ("proof",
-  "Twin contracts: the vector forms of the expression evaluator (literals, key/value, !, = != ^= & | > >= < <= + - * /) are proved to return, for every chunk, column and context, exactly the per-row values their row twins were proved to compute (shared documented-meaning predicate), a completed batch implying that every row evaluates; the chunk filter equals the row filter; function calls accept the same argument counts in both forms; the batch scans' chunk-index bookkeeping is proved ascending. Two defects found by failed obligations and repaired (batch arity check of variadic functions, MultiGetPlan.Batch chunk index).",
-  TRUST + "Covers the evaluator twins and the scans' bookkeeping; exact result sets of batch scans, projection / order / aggregate batch forms, vector scalar functions and the chunk caches are not covered (listed in evidence). LimitPlan twins are C08.",
+  "Twin contracts: the vector forms of the expression evaluator (literals, key/value, !, = != ^= ~= & | > >= < <= + - * / in between, text concatenation) are proved to return, for every chunk, column and context, exactly the per-row values their row twins were proved to compute (shared documented-meaning predicate), a completed batch implying that every row evaluates; the chunk filter equals the row filter; function calls accept the same argument counts in both forms and the vector forms of the scalar functions under contract equal their row forms; the four batch scans return exactly the filter-passing pairs of the segment they consume (chunk-index bookkeeping ascending, MultiGetPlan.Batch leaves no per-chunk key entries); batch projection returns one row per child pair and one column per field. 49 functions. Defects found by failed obligations and repaired: batch arity check of variadic functions, MultiGetPlan.Batch chunk index, BETWEEN / IN twins, list() vector form, stale per-chunk key caches.",
+  TRUST + "Order and aggregate-rendering batch forms are not covered; final-result columns of the projection rest on the interface clauses finalcols / colsok (assumptions about the children). LimitPlan twins are C08. The thorough tier adds a bounded row-vs-batch differential stand-in (labelled bounded, never counted as proved).",
   "DESIGN.md section 5, C03"),
  "C04": ("proof",
   "Boolean simplification (tryOptimizeAndOr) is proved value-preserving wherever the original evaluates, for every pair, against the documented short-circuit meaning of & and |; constant folding of a binary node (tryOptimizeBinaryOpExecute) is proved to produce a literal carrying exactly the evaluated value with the same kind (integer / float / text / Boolean).",
@@ -80,8 +79,8 @@ CLAIMS = {
   TRUST + "Sortedness and permutation of the output additionally rest on T-STD for container/heap (Pop returns a minimum by Less). Mixed-kind columns compare as unordered. The elision relies on C01's scan order.",
   "DESIGN.md section 5, C07"),
  "C09": ("proof",
-  "Accumulators and group keys: count, sum, avg, min, max are proved to be left folds in scan order (Update = one step on the converted argument value, unchanged on evaluation failure; Complete = the documented read-out; Clone = fresh initial state); the group key (row and batch path) is the length-prefixed encoding of the rendered group-by values, injective for up to 3 columns (lemmas).",
-  TRUST + "The dispatch from group key to row (prepare / prepareBatch, row construction and rendering), group_concat, json_arrayagg and quantile are NOT yet under contract. Floats uninterpreted; cat-cancellation of byte strings is an axiom.",
+  "Accumulators and group keys: count, sum, avg, min, max, group_concat and json_arrayagg are proved to be left folds in scan order (Update = one step on the converted argument value, unchanged on evaluation failure; Complete = the documented read-out; Clone = fresh initial state); the group key (row and batch path) is the length-prefixed encoding of the rendered group-by values, injective for up to 3 columns and per value kind (lemmas; floats rendered with %v since the D28 repair); AggregatePlan.prepare / prepareBatch dispatch every pair to the row of its key, create that row on first sight and update each accumulator once; buildFinalPlan wires GROUP BY / aggregate statements to the AggregatePlan. 35 functions and lemmas.",
+  TRUST + "Row construction (createAggrRow / updateRowAggrFunc: thin trusted contracts), rendering of aggregate rows (the Result memo of call nodes breaks A-EVAL), quantile and the global `one row per key` statement over all batches are not covered by proof; the thorough tier adds a bounded stand-in against hand-computed aggregates. Floats uninterpreted; cat-cancellation of byte strings is an axiom.",
   "DESIGN.md section 5, C09"),
 }
 
